@@ -1528,6 +1528,40 @@ def loop_heads(fu):
 	"""blocks that fetch the next loop item (`Iterator::next`): cutting there confines a search to one iteration"""
 	return set(fu.call_blocks(lambda p: p.endswith('Iterator::next') or p.endswith('::next')))
 
+def const_index_accesses(fu):
+	"""array/slice element accesses with a constant index:  [(block, 'w'|'r', base place (without the index), index value, rvalue-or-None, line)]"""
+	idx_const = {}
+	for bi, si, s in fu.stmts():
+		if len(s[1]) == 1 and s[2][0] == 'use' and s[2][1][0] == 'k' and (s[2][1][1].get('ty') == 'usize') and s[2][1][1].get('v') is not None:
+			idx_const.setdefault(s[1][0], set()).add(s[2][1][1]['v'])
+	def idx_of(el):
+		if isinstance(el, str) and el.startswith('[_') and el.endswith(']'):
+			try:
+				l = int(el[2:-1])
+			except ValueError:
+				return None
+			v = idx_const.get(l)
+			if v and len(v) == 1:
+				return list(v)[0]
+		return None
+	out = []
+	for bi, si, s in fu.stmts():
+		pl = s[1]
+		if len(pl) > 1 and idx_of(pl[-1]) is not None:
+			out.append((bi, 'w', pl[:-1], idx_of(pl[-1]), s[2], s[0]))
+		rv = s[2]
+		ops = []
+		if rv[0] == 'use':
+			ops = [rv[1]]
+		elif rv[0] == 'bin':
+			ops = [rv[2], rv[3]]
+		elif rv[0] == 'agg':
+			ops = rv[4]
+		for o in ops:
+			if o[0] in ('c', 'm') and len(o[1]) > 1 and idx_of(o[1][-1]) is not None:
+				out.append((bi, 'r', o[1][:-1], idx_of(o[1][-1]), None, s[0]))
+	return out
+
 def control_conds(fu, block):
 	"""branch conditions that can steer control away from `block` within one loop iteration (cheap control dependence):
 	[(switch block, condition key, line)]"""
